@@ -313,6 +313,42 @@ example : Fresh 2 c0.lastTime chattyHist ∧ BenignRun (fun _ => true) c0 chatty
   · simp [Fresh, chattyHist, c0, env0]
   · exact benignRunB_sound (by decide +kernel)
 
+/-- The watchdog in the connected states other than ACTIVE (RESENDREQ_AWAITING while a replay is awaited,
+RESENDREQ_HANDLING, RECV_SEQNUM_TOO_HIGH, …): it never probes, and as long as the last ACCEPTED frame is at
+most `2·hb·1000` ms old it does nothing at all. -/
+theorem non_active_tick_recent (env : Env) (c : Conn) (hs : c.sock = true) (hna : c.state ≠ st_ACTIVE)
+    (h3 : c.state > st_DISCONNECTED_BROKEN_CONN) (hrec : env.now - c.lastTime ≤ c.hb * 2 * 1000) :
+    tick env c = (c, []) := by
+  rw [tick_not_active env c hs hna h3, if_neg (fun hc => by have := hc.1; omega)]
+
+/-- `live_peer_spared_traffic` in every logged-on state (`On`: state ≥ LOGON_INITIAL_RECV, transport up,
+resend watermark consistent): benign = accepted frames (e.g. the PossDup replay after our ResendRequest)
+at least every `2·h·1000` ms keep the connection; RESENDREQ_AWAITING may become ACTIVE on the way.  Frames
+numbered too high are NOT accepted while a resend is awaited and do not count. -/
+theorem live_peer_spared_traffic_any_state (sr : Msg → Bool) (h : Int) (hh : 1 ≤ h) (c : Conn) (evs : List WEv)
+    (ho : On h c) (hn : c.testReqId = none) (ht0 : 1000 ≤ c.lastTime)
+    (hp : Paced (h * 2 * 1000) c.lastTime evs) (hb : BenignRun sr c evs) :
+    On h (run sr c (hist evs)).1 ∧ NoDisc (run sr c (hist evs)).2 :=
+  paced_run_on sr h hh c.lastTime c evs ho ht0 (Int.le_refl _) (Or.inl hn) hp hb
+
+/-- non-vacuity: RESENDREQ_AWAITING up to number 7 (h = 2); the peer replays 5, 6, 7 as PossDup frames
+3.5 s apart (the whole replay takes > 2·h), ticks every second: nothing is torn down, ACTIVE at the end -/
+def c0await : Conn := { c0 with state := st_RESENDREQ_AWAITING, maxResend := 7 }
+
+def replayHist : List WEv :=
+  [.tick (env0 101000), .tick (env0 102000), .tick (env0 103000),
+   .recv (env0 103500) (peerMsg "D" "5" [(43, "Y"), (11, "a")]), .tick (env0 104000), .tick (env0 105000),
+   .tick (env0 106000), .tick (env0 107000), .recv (env0 107000) (peerMsg "D" "6" [(43, "Y"), (11, "b")]),
+   .tick (env0 108000), .tick (env0 109000), .tick (env0 110000),
+   .recv (env0 110500) (peerMsg "D" "7" [(43, "Y"), (11, "c")]), .tick (env0 111000)]
+
+example : NoDisc (run (fun _ => true) c0await (hist replayHist)).2 ∧
+    (run (fun _ => true) c0await (hist replayHist)).1.state = st_ACTIVE :=
+  ⟨(live_peer_spared_traffic_any_state (fun _ => true) 2 (by omega) c0await replayHist
+      ⟨by decide, rfl, rfl, fun _ => by decide⟩ rfl (by decide)
+      (by simp [Paced, replayHist, c0await, c0, env0]) (benignRunB_sound (by decide +kernel))).2,
+   by decide +kernel⟩
+
 /-! ## 5. step lemmas -/
 
 /-- `testrequest_echoed`: a valid in-sequence TestRequest on a logged-on connection, reply sendable:
@@ -326,8 +362,8 @@ theorem testrequest_echoed (sr : Msg → Bool) (env : Env) (h : Int) (c : Conn) 
     (frameOf env c (echoMsg m)).mtype = mHeartbeat ∧
     (frameOf env c (echoMsg m)).get? tTestReqID = some ((m.get? tTestReqID).getD "0") ∧
     NoDisc (recv sr env c m).2 := by
-  rw [recv_testrequest sr env c m hu.active hu.sock hi hm, hl, hj]
-  obtain ⟨_, _, _, _, _, f6, f7⟩ := finalized_ctl env (sent c j) m
+  rw [recv_testrequest sr env c m (active_ge8 hu.active) (active_watermark hu.active) hu.sock hi hm, hl, hj]
+  obtain ⟨_, _, _, _, _, f6, f7⟩ := finalized_ctl env (sent c j) m (active_not_promoted hu.active)
   refine ⟨?_, rfl, frameOf_testReqId env c mHeartbeat _, ?_⟩
   · simp [f7, writes]
   · intro x hx
@@ -363,7 +399,7 @@ theorem wrong_id_logout (sr : Msg → Bool) (env : Env) (h tid : Int) (c : Conn)
       (recv sr env c m).1.state = st_DISCONNECTED_BROKEN_CONN ∧ (recv sr env c m).1.sock = false ∧
       (recv sr env c m).1.testReqId = none ∧ (recv sr env c m).1.lastTime = 0 := by
   rw [recv_heartbeat_wrong sr env c m tid v j ha.active ha.sock hi hm ha.tid hv hne hl hj]
-  obtain ⟨f1, f2, _, f4, _, _, f7⟩ := finalized_ctl env (dropped (sent c j)) m
+  obtain ⟨f1, f2, _, f4, _, _, f7⟩ := finalized_ctl env (dropped (sent c j)) m rfl
   exact ⟨_, _, rfl, rfl, frameOf_text env (cleared c) mLogout wrongIdText, f7, f1, f2, f4,
     finalized_lastTime_down env (dropped (sent c j)) m rfl⟩
 
@@ -373,8 +409,9 @@ theorem right_id_clears (sr : Msg → Bool) (env : Env) (h tid : Int) (c : Conn)
     (hv : m.get? tTestReqID = some v) (he : (pyInt v).getD 0 = tid) :
     (recv sr env c m).1.testReqId = none ∧ Up h (recv sr env c m).1 ∧ (recv sr env c m).1.lastTime = env.now ∧
     writes (recv sr env c m).2 = [] ∧ NoDisc (recv sr env c m).2 := by
-  rw [recv_heartbeat_echo sr env c m tid v ha.active hi hm ha.tid hv he]
-  obtain ⟨f1, f2, f3, f4, f5, f6, f7⟩ := finalized_ctl env { c with testReqId := none } m
+  rw [recv_heartbeat_echo sr env c m tid v (active_ge8 ha.active) (active_watermark ha.active) hi hm ha.tid hv he]
+  obtain ⟨f1, f2, f3, f4, f5, f6, f7⟩ :=
+    finalized_ctl env { c with testReqId := none } m (active_not_promoted (c := { c with testReqId := none }) ha.active)
   exact ⟨f4, ⟨f1.trans ha.active, f2.trans ha.sock, f3.trans ha.hb⟩, f5 ha.active, f7, f6⟩
 
 /-- `heartbeat_without_id_ignored`: an interval Heartbeat leaves the outstanding id alone. -/
@@ -382,8 +419,8 @@ theorem heartbeat_without_id_ignored (sr : Msg → Bool) (env : Env) (h tid : In
     (ha : Armed h tid c) (hi : InSeq c m) (hm : m.mtype = mHeartbeat) (hv : m.get? tTestReqID = none) :
     Armed h tid (recv sr env c m).1 ∧ (recv sr env c m).1.lastTime = env.now ∧
     writes (recv sr env c m).2 = [] ∧ NoDisc (recv sr env c m).2 := by
-  rw [recv_heartbeat_idle sr env c m ha.active hi hm (Or.inr hv)]
-  obtain ⟨f1, f2, f3, f4, f5, f6, f7⟩ := finalized_ctl env c m
+  rw [recv_heartbeat_idle sr env c m (active_ge8 ha.active) (active_watermark ha.active) hi hm (Or.inr hv)]
+  obtain ⟨f1, f2, f3, f4, f5, f6, f7⟩ := finalized_ctl env c m (active_not_promoted ha.active)
   exact ⟨⟨⟨f1.trans ha.active, f2.trans ha.sock, f3.trans ha.hb⟩, f4.trans ha.tid⟩, f5 ha.active, f7, f6⟩
 
 /-- non-vacuity of the step lemmas' hypotheses on `c0` with id 101 outstanding -/
